@@ -189,7 +189,7 @@ def _run_pool(payload, jobs):
     attempt = 0
     while open_jobs:
         attempt += 1
-        no_api = attempt > 1
+        no_api = attempt > 2          # second attempt: same portfolio again (hangs are not deterministic); third: no API
         batch = [tuple(p[:6]) + (no_api,) for p in open_jobs]
         budget = max(p[3] for p in batch) / 1000.0
         stall = 8 + 2 * budget + 60          # API + CLI quick, cvc5, CLI full, margin
@@ -219,7 +219,7 @@ def _run_pool(payload, jobs):
         else:
             ex.shutdown(wait=True)
         open_jobs = [p for p in open_jobs if p[0] not in results]
-        if open_jobs and attempt >= 2:
+        if open_jobs and attempt >= 3:
             # even the command-line runs did not return: give up on these (verdict unknown)
             for p in open_jobs:
                 results[p[0]] = (p[0], "unknown", "solver did not return within the hard limit", 0.0, "none")
